@@ -879,6 +879,7 @@ func cmdEnvelope(args []string) {
 type strQuery struct{}
 
 func (q *strQuery) Echo(s string) string { return "s=" + s }
+func (q *strQuery) Say(word string, again string) string { return word + again }
 func (q *strQuery) Fail(s string) (interface{}, error) {
 	return nil, fmt.Errorf("failed on %s", s)
 }
@@ -925,7 +926,7 @@ func gqlStringLiteral(s string) (string, bool) {
 
 func contentCases(enc *json.Encoder, rep *vh.Report) {
 	root := ggql.NewRoot(&strSchema{Query: &strQuery{}})
-	if err := root.ParseString("type Query { echo(s: String): String fail(s: String): String many(s: String): String " +
+	if err := root.ParseString("type Query { echo(s: String): String say(word: String, again: String): String fail(s: String): String many(s: String): String " +
 		"big: Float neg: Float bigStr: Float bigs: [Float] inf: Float64 nan: Float64 infs: [Float64] huge: Int }"); err != nil {
 		vh.Die("content root: %s", err)
 	}
@@ -940,6 +941,7 @@ func contentCases(enc *json.Encoder, rep *vh.Report) {
 		rep.Case("content|"+q, true)
 		rep.Class("content:numbers")
 	}
+	positionCases(enc, rep, root)
 	var strs []string
 	for _, a := range contentChars {
 		strs = append(strs, a)
@@ -979,6 +981,70 @@ func contentCases(enc *json.Encoder, rep *vh.Report) {
 			_ = enc.Encode(sk)
 			rep.Case("content|"+q.text+"|"+s, true)
 			rep.Class("content")
+		}
+	}
+}
+
+// positionCases: requests that fail at every kind of token the request reader gives a position to (an operation
+// keyword, a fragment definition, a variable definition, an argument, a directive), written on one line and with
+// every token on a line of its own; the errors must still be located inside the document (Envelope!ErrorOK,
+// LocationOK).
+func positionCases(enc *json.Encoder, rep *vh.Report, root *ggql.Root) {
+	type rq struct {
+		text string
+		vars map[string]interface{}
+	}
+	reqs := []rq{
+		{"query Q($count: Int) { huge say(word: \"a\", again: \"b\") }", map[string]interface{}{"count": "str"}},
+		{"query Q($count: Int = \"x\") { huge }", nil},
+		{"query Q($count: Nope) { huge }", nil},
+		{"query Q($count: Int, $other: String) { huge }", map[string]interface{}{"other": 3, "count": 1}},
+		{"{ say(word: \"x\", extra: 3) }", nil},
+		{"{ say(word: \"x\", word: \"y\") }", nil},
+		{"{ say(word: \"x\", again: 3) }", nil},
+		{"{ say(word: \"x\", again: $missing) }", nil},
+		{"foo", nil},
+		{"foo { huge }", nil},
+		{"fragment", nil},
+		{"fragment Frag", nil},
+		{"fragment Frag on", nil},
+		{"fragment Frag on Query", nil},
+		{"{ ...Frag } fragment Frag on Nope { huge }", nil},
+		{"{ ...Gone }", nil},
+		{"{ huge @nope }", nil},
+		{"{ huge @skip }", nil},
+		{"{ huge @skip(if: 3) }", nil},
+		{"{ huge @skip(unless: true) }", nil},
+		{"{ ... on Nope { huge } }", nil},
+		{"{ ... on Nope! { huge } }", nil},
+		{"{ ... @nope { huge } }", nil},
+		{"query Q @nope { huge }", nil},
+		{"{ nope }", nil},
+		{"{ huge { deeper } }", nil},
+		{"query Again { huge } query Again { huge }", nil},
+		{"{ huge } { huge }", nil},
+		{"subscription { huge }", nil},
+		{"mutation { huge }", nil},
+		{"{ huge", nil},
+		{"{ say(word: \"x\" }", nil},
+		{"{ say(word: ) }", nil},
+		{"{ say(: 3) }", nil},
+		{"query ($: Int) { huge }", nil},
+		{"query ($count Int) { huge }", nil},
+		{"{ alias: }", nil},
+	}
+	for _, q := range reqs {
+		for li, text := range []string{q.text, gq.TokenPerLine(q.text), strings.Replace(gq.TokenPerLine(q.text), "\n", "\r\n", -1)} {
+			res := root.ResolveString(text, "", q.vars)
+			sk := skeleton(res)
+			sk["lex"] = lexemes(text)
+			d, hasData := res["data"]
+			sk["rejected"] = !hasData || d == nil
+			sk["text"] = text
+			sk["layout"] = 5 * li
+			_ = enc.Encode(sk)
+			rep.Case("position|"+text, true)
+			rep.Class("position")
 		}
 	}
 }
